@@ -46,9 +46,9 @@ def showTexts (l : List (List Char)) : String := if l.isEmpty then "-" else ",".
 def showOT (o : Option (List Char)) : String := match o with | some t => "s" ++ encT t | none => "n"
 
 def dump (s : St) : String :=
-  let cs := s.cobj.map fun p => "C" ++ toString p.1 ++ ":" ++ showOpt p.2.id ++ ":" ++ encT p.2.state ++ ":" ++ showOT p.2.purpose ++ ":" ++
+  let cs := s.cobj.zipIdx.map fun q => let p := (q.2, q.1); "C" ++ toString p.1 ++ ":" ++ showOpt p.2.id ++ ":" ++ encT p.2.state ++ ":" ++ showOT p.2.purpose ++ ":" ++
     showTexts p.2.path ++ ":" ++ showTexts p.2.buildFlags ++ ":" ++ showNats p.2.streams ++ ":" ++ showNats p.2.listeners ++ ":" ++ showKw p.2.flags
-  let ss := s.sobj.map fun p => "S" ++ toString p.1 ++ ":" ++ showOpt p.2.id ++ ":" ++ showOT p.2.state ++ ":" ++ showOT p.2.targetHost ++ ":" ++
+  let ss := s.sobj.zipIdx.map fun q => let p := (q.2, q.1); "S" ++ toString p.1 ++ ":" ++ showOpt p.2.id ++ ":" ++ showOT p.2.state ++ ":" ++ showOT p.2.targetHost ++ ":" ++
     toString p.2.targetPort ++ ":" ++ showOT p.2.targetAddr ++ ":" ++ showOT p.2.sourceAddr ++ ":" ++ toString p.2.sourcePort ++ ":" ++
     showOpt p.2.circuit ++ ":" ++ showNats p.2.listeners ++ ":" ++ showKw p.2.flags
   let cm := s.circuits.map fun p => "c" ++ toString p.1 ++ "=" ++ toString p.2
